@@ -212,6 +212,9 @@ def analyse(scenario, result):
                              'the stopped job sent {} commands after the '
                              'stop request returned'.format(len(later))))
     # 3. the second job
+    delivered_at = next((i for i, e in enumerate(log)
+                         if i > stop_call and e[3] == 'stop-delivered'), None)
+    delivered_to = log[delivered_at][4] if delivered_at is not None else None
     second_cmds = [e for e in log if e[3] == 'cmd' and e[4] == 'L2']
     second_added = [i for i, e in enumerate(log) if e[3] == 'call'
                     and e[5][:2] == ['add', 'second']]
@@ -253,12 +256,21 @@ def analyse(scenario, result):
             pass        # it was the current job by then: stopped, not cleared
         elif stop_kind in ('stop_current', 'agent_stop') and (
                 next((e[4] for e in log if e[3] == 'stop-target'), None)
-                == 'second' or (landed == 'after-job-finished'
-                                and second_start is not None
-                                and second_start < stop_ret)):
+                == 'second' or delivered_to == 'second'
+                or (landed == 'after-job-finished'
+                    and second_start is not None
+                    and second_start < stop_ret)):
             # the first job was over: the request legitimately hit the job
-            # behind it, which was the current one by then
+            # behind it, which was the current one by then - "by then"
+            # being the moment the controller picked it, somewhere between
+            # the call and its return
             labels.append('stop-hit-second-job')
+            if delivered_to == 'second' and (
+                    first_end is None or first_end > delivered_at):
+                problems.append((
+                    'stop-hit-a-job-that-was-not-current',
+                    'the request was handed to the job behind the running '
+                    'one while that one had not ended'))
         elif len(second_cmds) != 3:
             problems.append(('next-job-incomplete',
                              'the job behind the stopped one sent {} of its '
